@@ -6,10 +6,17 @@
 EXTENDS ChequeStore, TLC, Json, IOUtils
 VARIABLE hist
 
+EnvOr(n, d) == IF n \in DOMAIN IOEnv THEN IOEnv[n] ELSE d
+\* VERIF_HS = n > 0: the registration family -- nobody is registered before the scenario; it starts with up to n
+\* handshakes (any peer presenting chain address 1 or 2: two overlays presenting the same address, a registered peer
+\* presenting another one, ...), then cheques.  VERIF_HSLATE=1 also allows handshakes between cheques.
+MaxHs == atoi(EnvOr("VERIF_HS", "0"))
+HsLate == EnvOr("VERIF_HSLATE", "0") = "1"
 MCKeys == 1..3
-MCRegPeers == 1..2
+MCRegPeers == IF MaxHs > 0 THEN {} ELSE 1..2
 MCAllPeers == 1..3
-MCCums == {1, 2, 3, 5}
+MCCums == IF MaxHs > 0 THEN 1..atoi(EnvOr("VERIF_CUMS", "1")) ELSE {1, 2, 3, 5}
+HsKeys == IF EnvOr("VERIF_HSKEYS", "2") = "2" THEN {1, 2} ELSE 1..3
 
 Depth == IF "VERIF_DEPTH" \in DOMAIN IOEnv THEN atoi(IOEnv.VERIF_DEPTH) ELSE 5
 Via   == IF "VERIF_VIA" \in DOMAIN IOEnv THEN IOEnv.VERIF_VIA ELSE "service"
@@ -25,19 +32,30 @@ ClassCheques ==
      \/ (c.from \in RegPeers /\ c.issuer = c.from /\ c.signer # c.from /\ c.rcpt = 1)    \* other key signed
      \/ (c.from \in RegPeers /\ c.issuer # c.from /\ c.signer = c.issuer /\ c.rcpt = 1)  \* foreign issuer
      \/ (c.from \notin RegPeers /\ c.signer = c.issuer /\ c.issuer \in {1, c.from} /\ c.rcpt = 1)}
-GenCheques == IF Alphabet = "full" THEN Cheques ELSE ClassCheques
+\* registration family: well-formed cheques (addressed to this node, signed by their issuer) of the claimable
+\* addresses from every peer -- what separates them is who is registered with what
+RegCheques == {c \in Cheques : c.rcpt = 1 /\ c.signer = c.issuer /\ c.issuer \in HsKeys}
+GenCheques == IF MaxHs > 0 THEN RegCheques ELSE IF Alphabet = "full" THEN Cheques ELSE ClassCheques
 
 Op(c) == [op |-> "cheque", from |-> c.from, issuer |-> c.issuer, signer |-> c.signer,
-          rcpt |-> c.rcpt, cum |-> c.cum, cls |-> Class(last, c)]
+          rcpt |-> c.rcpt, cum |-> c.cum, cls |-> Class(last, reg, claim, c)]
+HsOp(p, k) == [op |-> "handshake", from |-> p, issuer |-> k, cls |-> IF Registers(reg, p, k) THEN "registers" ELSE "refused_or_kept"]
+
+NHs == Cardinality({i \in DOMAIN hist : hist[i].op = "handshake"})
+NoChequeYet == \A i \in DOMAIN hist : hist[i].op = "handshake"
 
 GInit == Init /\ hist = <<>>
 GNext == /\ Len(hist) < Depth
-         /\ \E c \in GenCheques : Receive(c) /\ hist' = Append(hist, Op(c))
+         /\ \/ \E c \in GenCheques : Receive(c) /\ hist' = Append(hist, Op(c))
+            \/ /\ NHs < MaxHs /\ (HsLate \/ NoChequeYet)
+               /\ \E p \in AllPeers, k \in ClaimKeys : Handshake(p, k) /\ hist' = Append(hist, HsOp(p, k))
 GSpec == GInit /\ [][GNext]_<<vars, hist>>
 
-EdgeView == <<last, IF hist = <<>> THEN <<>> ELSE <<hist[Len(hist)]>> >>
+\* the ghost `claim` is part of the view: a refused handshake changes nothing else, and the histories that continue
+\* after it (a cheque of the claimed address from the refused peer) must not be dropped for shorter ones without it
+EdgeView == <<last, reg, claim, IF hist = <<>> THEN <<>> ELSE <<hist[Len(hist)]>> >>
 
-Scn == [par |-> [via |-> Via], ops |-> hist]
+Scn == [par |-> [via |-> Via, reg0 |-> [p \in AllPeers |-> IF p \in RegPeers THEN 1 ELSE 0]], ops |-> hist]
 EmitAll  == hist # <<>> => PrintT(<<"SCN", ToJson(Scn)>>)
 EmitFull == Len(hist) = Depth => PrintT(<<"SCN", ToJson(Scn)>>)
 =============================================================================
